@@ -97,7 +97,7 @@ def regName (conf : Conf) : Option String := (registeredKey conf.dir).map (keyNa
     request for the registered key, and it answers honestly: it signs the data it was given with
     the key it was asked for) -/
 def validProof (i : RunIn) (seg : List OEv) : Bool :=
-  i.p.nons && !i.p.hardKey && i.behav == "honest" &&
+  i.p.nons && !i.p.hardKey && (i.behav == "honest" || i.behav == "honest+le") &&
   match regName i.conf with
   | some k => seg.contains (.sign k true)
   | none => false
